@@ -16,7 +16,8 @@ var cacheModes = []string{"n", "n", "r", "s", "d", "e"}
 // genHistory emits one random history on one configuration.
 func genHistory(r *hxlib.Run, emit func(hxlib.Case), backend string, shadow bool, cache string, nOps int, st *dbx.CondStats) {
 	rng := r.Rng
-	keys := dbx.Keys(backend)
+	keys, prefixes, universe := dbx.Universe(rng, backend)
+	r.Count("keys:" + universe)
 	sh := "0"
 	if shadow {
 		sh = "1"
@@ -161,7 +162,7 @@ func genHistory(r *hxlib.Run, emit func(hxlib.Case), backend string, shadow bool
 			}
 		case x < 88:
 			sync()
-			lines = append(lines, fmt.Sprintf("query p %s %s", pick(r, dbx.Prefixes), dbx.GenCond(rng, 0, st)))
+			lines = append(lines, fmt.Sprintf("query p %s %s", pick(r, prefixes), dbx.GenCond(rng, 0, st)))
 			read = true
 			r.Count("op:query")
 		case x < 91:
@@ -169,7 +170,7 @@ func genHistory(r *hxlib.Run, emit func(hxlib.Case), backend string, shadow bool
 				continue
 			}
 			sync()
-			lines = append(lines, fmt.Sprintf("purge p %s %s", pick(r, dbx.Prefixes), dbx.GenCond(rng, 0, st)))
+			lines = append(lines, fmt.Sprintf("purge p %s %s", pick(r, prefixes), dbx.GenCond(rng, 0, st)))
 			r.Count("op:purge")
 			if cached {
 				r.Count("op:purge-on-cached-interface")
@@ -199,6 +200,9 @@ func genHistory(r *hxlib.Run, emit func(hxlib.Case), backend string, shadow bool
 	sync()
 	lines = append(lines, "query p - -", "dump")
 	kind := "hist:" + backend + sh + cache
+	if universe != "plain" {
+		kind += ":" + universe + "-keys"
+	}
 	if findingMode {
 		kind += ":batch-behind-cache"
 	}
